@@ -11,6 +11,31 @@ COMMON_ASSUMPTIONS = [
 SHARD_VALUE_UNITS = ['vm_new', 'vm_with_expiration', 'vm_is_expired', 'vm_set_expiration', 'vm_clear_expiration',
                      'sv_new', 'sv_with_expiration', 'sv_is_expired', 'value_integer', 'value_as_integer']
 
+from . import tables as _t
+
+def _kx(name, template, bounded=None, tier='quick', timeout=600, **kw):
+    d = {'name': name, 'kind': 'extracted', 'template': template, 'harness': name, 'tier': tier, 'timeout': timeout}
+    if bounded:
+        d['bounded'] = bounded
+    d.update(kw)
+    return d
+
+STREAM_KANI = [
+    _kx('gen_next_atomic', 'stream_id'),
+    _kx('sid_pack_order', 'stream_id'),
+    _kx('stream_add_with_id_admission_bounded', 'stream_log', bounded='2 present entries with symbolic IDs, symbolic top ID and candidate ID'),
+    _kx('stream_range_after_n0', 'stream_log', bounded='empty log'),
+    _kx('stream_range_after_n2', 'stream_log', bounded='2 entries, symbolic IDs, COUNT <= 4 or none'),
+    _kx('stream_range_after_n3', 'stream_log', bounded='3 entries, symbolic IDs, COUNT <= 4 or none', tier='thorough'),
+]
+RDB_KANI = [
+    _kx('rdb_length_roundtrip', 'rdb_codec'),
+    _kx('rdb_fixed_roundtrip', 'rdb_codec'),
+]
+RDB_TOTAL_KANI = [
+    _kx('rdb_read_length_total', 'rdb_codec'),
+]
+
 PROPS = {
     'C01': {
         'level': 'proof',
@@ -32,14 +57,65 @@ PROPS = {
         'verus': [{'group': 'c04_zset_arith'}],
         'explanation': 'rank-range arithmetic of ZRANGE/ZREVRANGE/ZRANK against spec_zrange with the skip list behind an assumed contract',
     },
-    'C20': {
+    'C06': {
         'level': 'proof',
-        'verus': [{'group': 'c20_parser'}],
-        'explanation': 'request-grammar parser functions proved against the RESP oracle (spec/resp.rs) incl. chunking lemmas over the oracle; aggregate parsers proved safe, progressing and allocation-bounded',
+        # C06 = the safety obligations (overflow, bounds, slice ranges, unwrap, preconditions of callees such as the
+        # allocation budget) of EVERY unit under contract, for all argument values
+        'verus': [{'group': g, 'kinds': ['safety', 'requires-at-call', 'decreases', 'invariant']} for g in
+                  ['shard_core', 'c03_lists_arith', 'c04_zset_arith', 'c19_scan', 'c20_parser', 'c09_rdb', 'c13_blocking', 'c07_transactions']],
+        'kani': STREAM_KANI[:1] + RDB_TOTAL_KANI,
+        'explanation': 'function by function: every unit under contract is proved free of index/slice errors, arithmetic overflow, failing unwraps and unbounded reservations for ALL argument values; the claim is "no panic in these functions", not "no panic in the server"',
+    },
+    'C07': {
+        'level': 'proof',
+        'verus': [{'group': 'c07_transactions'}],
+        'tables': [{'name': 'should_queue_command', 'file': 'src/storage/commands/transactions.rs', 'fn': 'should_queue_command',
+                    'extra_names': ['MULTI', 'EXEC', 'DISCARD', 'WATCH', 'UNWATCH'],
+                    'expect_true': lambda names: set(names) - {'MULTI', 'EXEC', 'DISCARD', 'WATCH', 'UNWATCH'},
+                    'why': 'inside MULTI every command except the five transaction-control commands is queued'}],
+        'explanation': 'queueing kernel only: MULTI/DISCARD/queue_command state transitions proved; should_queue_command enumerated over the dispatch table. EXEC atomicity/isolation is a schedule property and is NOT decided',
     },
     'C08': {
         'level': 'proof',
         'verus': [{'group': 'shard_core'}],
         'explanation': 'every shard mutator under contract marks the key it changes and no other (step_ok)',
+    },
+    'C09': {
+        'level': 'proof',
+        'verus': [{'group': 'c09_rdb'}],
+        'kani': RDB_KANI,
+        'explanation': 'codec level: length / fixed-width field encoders and decoders are inverse for every value (Kani, complete); expiry-on-load computation proved (Verus). Value-level round trip is not under contract',
+    },
+    'C10': {
+        'level': 'proof',
+        'kani': RDB_TOTAL_KANI,
+        'explanation': 'corrupted-input clause only: read_length is total on arbitrary bytes (no panic, no read past the data, short read = error). Crash points and save/command interleavings are not decidable by function contracts here',
+    },
+    'C11': {
+        'level': 'proof',
+        'tables': [{'name': 'is_write_command', 'file': 'src/network/server.rs', 'fn': 'Server::is_write_command',
+                    'expect_true': lambda names: set(names) & _t.write_catalogue(),
+                    'why': 'a dispatched command is appended to the AOF iff it is a Redis write command (spec/write_catalogue.txt)'}],
+        'explanation': 'classification kernel only: is_write_command (real body) enumerated exhaustively over the dispatch table extracted from the server on every run against the fixed Redis write-command catalogue',
+    },
+    'C13': {
+        'level': 'proof',
+        'verus': [{'group': 'c13_blocking'}],
+        'explanation': 'registry kernel: FIFO service, registry invariant, and no leftover registration of a served client (with unregister_client as assumed contract)',
+    },
+    'C15': {
+        'level': 'proof',
+        'kani': STREAM_KANI,
+        'explanation': 'ID generation (complete Kani proof over full u64 domains), ID packing/order (complete); explicit-ID admission and XREAD range_after (bounded stand-ins, not counted)',
+    },
+    'C19': {
+        'level': 'proof',
+        'verus': [{'group': 'c19_scan'}],
+        'explanation': 'the cursor window of SCAN (real loop, extracted) proved against the filtered-window contract; lemmas A (static key space: complete, sound, progressing) proved over the contract; lemma B (stability under deletions) is a known finding',
+    },
+    'C20': {
+        'level': 'proof',
+        'verus': [{'group': 'c20_parser'}],
+        'explanation': 'request-grammar parser functions proved against the RESP oracle (spec/resp.rs) incl. chunking lemmas over the oracle; aggregate parsers proved safe, progressing and allocation-bounded',
     },
 }
